@@ -88,6 +88,12 @@ fn run(construct: &str, depth: usize, op: &str) -> i32 {
         std::mem::forget(r);
         return 0;
     }
+    if op == "parse-rule-bare-comment" {
+        // the first comment line is empty: the rule's name is the empty text
+        let r = Rule::parse(&if text.starts_with("// n\n@k") { text.replacen("// n", "//", 1) } else { format!("//\n{text}") });
+        std::mem::forget(r);
+        return 0;
+    }
     let e = match Expr::parse(&text) {
         Ok(e) => e,
         Err(_) => return 3,
@@ -157,7 +163,7 @@ fn run(construct: &str, depth: usize, op: &str) -> i32 {
             for i in 0..39 {
                 b = b.with_rule(mk(format!("small {i}"), Expr::value(i as i128))).expect("with_rule");
             }
-            let rs = b.with_rule(mk("deep".into(), e)).expect("with_rule").build();
+            let rs = b.with_symbol("unused", Value::Int(1)).with_rule(mk("deep".into(), e)).expect("with_rule").build();
             drop(rs);
             std::thread::sleep(std::time::Duration::from_millis(40));
         }
@@ -165,6 +171,7 @@ fn run(construct: &str, depth: usize, op: &str) -> i32 {
             // the tree as one rule of a ruleset assembled through both builder entry points, evaluated with the others
             let mk = |n: &str, e: Expr| Rule::new(n, std::collections::BTreeMap::new(), e);
             let rs = ruleset()
+                .with_symbol("unused", Value::Int(1))
                 .with_rule(mk("first", Expr::value(1)))
                 .expect("with_rule")
                 .with_rules(vec![mk("second", Expr::value(2)), mk("deep", e)])
